@@ -172,3 +172,37 @@ Proof.
   intros Hb. induction f as [|f IH]; intros st r Hp H; [discriminate|]. simpl in H.
   destruct (cond st) eqn:E; [eapply IH; [|eassumption]; auto|]. now inversion H; subst.
 Qed.
+
+(* ------------------------------------------------------------------------------------------------ second pass (TIE2)
+     xs[::-1]                                     py_rev xs
+     xs[a:b] / xs[a:] / xs[:b]  (int bounds)      py_slice xs (Some a | None) (Some b | None)   Python's clipping of the bounds
+     xss[i][j], np.concatenate(xss)               py_nth 0 (py_nth nil xss i) j,  concat xss
+     s + xs  (numpy broadcast)                    map (add s) xs *)
+Definition py_rev {A : Type} (l : list A) : list A := rev l.
+Definition py_clip (n i : Z) : Z := if i <? 0 then Z.max 0 (n + i) else Z.min i n.
+Definition py_slice {A : Type} (l : list A) (lo hi : option Z) : list A :=
+  let n := py_len l in
+  let a := match lo with None => 0 | Some i => py_clip n i end in
+  let b := match hi with None => n | Some i => py_clip n i end in
+  firstn (Z.to_nat (b - a)) (skipn (Z.to_nat a) l).
+
+Lemma py_nth_head {A} (d : A) l : py_nth d l 0 = hd d l.
+Proof. destruct l; reflexivity. Qed.
+
+Lemma py_len_app1 {A} (l : list A) x : py_len (l ++ [x]) = py_len l + 1.
+Proof. unfold py_len. rewrite app_length. simpl. lia. Qed.
+
+Lemma py_len_zero {A} (l : list A) : (py_len l =? 0) = match l with [] => true | _ => false end.
+Proof. destruct l; [reflexivity|]. unfold py_len. simpl length. destruct (Z.eqb_spec (Z.of_nat (S (length l))) 0); [lia|reflexivity]. Qed.
+
+Lemma py_slice_all {A} (l : list A) : py_slice l None None = l.
+Proof. unfold py_slice, py_len. rewrite Z.sub_0_r, Nat2Z.id. simpl. apply firstn_all. Qed.
+
+Lemma py_slice_from {A} (l : list A) (k : nat) : py_slice l (Some (Z.of_nat k)) None = skipn k l.
+Proof.
+  unfold py_slice, py_clip, py_len. destruct (Z.ltb_spec (Z.of_nat k) 0); [lia|].
+  destruct (Nat.le_gt_cases k (length l)).
+  - rewrite Z.min_l by lia. rewrite Nat2Z.id. replace (Z.to_nat (Z.of_nat (length l) - Z.of_nat k)) with (length (skipn k l))
+      by (rewrite skipn_length; lia). apply firstn_all.
+  - rewrite Z.min_r by lia. rewrite Nat2Z.id, Z.sub_diag. simpl. rewrite !skipn_all2 by lia. reflexivity.
+Qed.
